@@ -151,6 +151,27 @@ def run_case(ctx, idx, X, y, ncls, bk, nm, alpha, kws, custom_U):
         return
     finally:
         om.MultiTaskLasso = orig_mtl
+    if ctx.rng.random() < 0.6:
+        # another model of the same problem shape is trained afterwards (the next fold, the next label coding): this model's sensor
+        # weights are its own – they neither move nor stop minimising ITS objective
+        held = np.array(model.sensor_coef_, copy=True)
+        try:
+            if custom_U is not None:
+                from pysensors.basis import Custom
+                other = SSPOC(basis=Custom(custom_U.copy(), n_basis_modes=nm).fit(), l1_penalty=alpha, n_sensors=min(2, nf))
+            else:
+                other = SSPOC(basis=models.make_basis(bk, nm), l1_penalty=alpha, n_sensors=min(2, nf))
+            labels = sorted(set(y.tolist()))
+            y2 = np.array([labels[(labels.index(v) + 1) % len(labels)] for v in y.tolist()])
+            other.fit(X[::-1].copy(), y2[::-1].copy() if ctx.rng.random() < 0.5 else y2, quiet=True, refit=False, **kws)
+            ctx.count("another_model_of_the_same_shape_trained_afterwards")
+        except Exception:
+            ctx.count("second_model_failed")
+        if np.shape(held) != np.shape(model.sensor_coef_) or not np.array_equal(held, np.asarray(model.sensor_coef_)):
+            ctx.violation("concrete", f"SSPOC ({bk}, {ncls} classes, l1_penalty={alpha}): training ANOTHER model of the same problem shape changed this "
+                                      f"model's sensor weights (max change {float(np.max(np.abs(held - np.asarray(model.sensor_coef_)))) if np.shape(held) == np.shape(model.sensor_coef_) else 'shape'})",
+                          {"signature": "sensor-weights:changed-by-a-later-model", **base})
+            return
     if ncls > 2 and seen:
         mtl = seen[-1]
         if getattr(mtl, "n_iter_", 0) >= mtl.max_iter:
